@@ -299,37 +299,4 @@ theorem lc_check_tableaux (t1 t2 : STab) (hreal1 : ∀ i, i < t1.n → (t1.row i
   have itot := circImage_comp (circImage_comp i1 i2) i3
   exact circImage_unique (circImage_runCircuit t1 _ itot.wf) itot
 
-/-- **the model of `lc_check` on two stabilizer tableaux is sound**: whenever it returns `(True, total)` — with or without its
-    own validation — running `total` on the first state gives exactly the second state -/
-theorem lcCheckStates_sound (t1 t2 : STab) (hreal1 : ∀ i, i < t1.n → (t1.row i).ip = false)
-    (hreal2 : ∀ i, i < t2.n → (t2.row i).ip = false) (hn : t1.n = t2.n) (validate : Bool) (total : List Gate)
-    (h : lcCheckStates t1 t2 validate = .ok (true, total)) : STab.SpanEq (t1.runCircuit total) t2 := by
-  unfold lcCheckStates at h
-  split at h
-  · cases h
-  · rename_i g1 G1 e1
-    split at h
-    · cases h
-    · rename_i g2 G2 e2
-      split at h
-      · cases h
-      · rename_i L flag ec
-        have hL : lcCheckR g1 g2 false = .ok (true, L) := by
-          unfold lcCheckR
-          rw [ec]
-          rfl
-        have key := lc_check_tableaux t1 t2 hreal1 hreal2 hn g1 g2 G1 G2 e1 e2 false L hL
-        simp only [] at h
-        have htot : total = G1 ++ L.map toGate ++ revCirc G2 := by
-          split at h
-          · split at h
-            · cases h
-            · have := Except.ok.inj h
-              exact ((Prod.mk.inj this).2).symm
-            · cases h
-          · have := Except.ok.inj h
-            exact ((Prod.mk.inj this).2).symm
-        rw [htot]
-        exact key
-
 end Graphiq.LC
